@@ -100,6 +100,15 @@ static MatL gen_hess(const std::string& kind, int n, Rng& r, bool tridiag)
         if (n % 2)
             H(n - 1, n - 1) = 3;
     }
+    if (kind == "negdiag")
+    {
+        // diagonal matrix with non-positive entries (all sub-diagonals exactly zero): scaling decisions must use magnitudes
+        H.setZero();
+        for (int i = 0; i < n; i++)
+            H(i, i) = -(LD) r.below(4) - (r.below(2) ? 0.5L : 0.0L);
+        if (H.norm() == 0)
+            H(0, 0) = -1;
+    }
     if (kind == "companion")
     {
         H.setZero();
@@ -122,7 +131,7 @@ static MatL gen_hess(const std::string& kind, int n, Rng& r, bool tridiag)
     return H;
 }
 
-static const char* KINDS[12] = {"rand", "integer", "graded", "deflated", "tiny", "ratio", "perm", "jordan", "companion", "zero", "repeated", "defective"};
+static const char* KINDS[13] = {"rand", "integer", "graded", "deflated", "tiny", "ratio", "perm", "jordan", "companion", "zero", "repeated", "defective", "negdiag"};
 
 // ---- C08 ----------------------------------------------------------------------------------------------------------
 template <typename T, typename QR>
@@ -274,7 +283,7 @@ static void qr_type(const Desc& d, int tycode)
     const int nmax = (int) d.i("nmax", 40);
     for (int c = 0; c < count; c++)
     {
-        const std::string kind = KINDS[c % 12];
+        const std::string kind = KINDS[c % 13];
         int n = 2 + r.below(nmax - 1);
         if (c % 7 == 0)
             n = 2 + r.below(4);
@@ -340,7 +349,7 @@ static void eig_type(const Desc& d, int tycode)
     const int nmax = (int) d.i("nmax", 64);
     for (int c = 0; c < count; c++)
     {
-        const std::string kind = KINDS[c % 12];
+        const std::string kind = KINDS[c % 13];
         if (kind == "tiny" && tycode == 1)
             continue;
         int n = 2 + r.below(nmax - 1);
